@@ -122,3 +122,20 @@ Fixpoint pair_spec (fuel : nat) (l : list out) : list out :=
 (* everything the selected iterator will deliver: per input, in argument order *)
 Definition all_outs (m : mode) (stdin : fdata) (args : list (fsrc fdata)) : list out :=
   match args with [] => data_outs (fmt_of m) stdin | _ => flat_map (src_outs (fmt_of m)) args end.
+
+(* linear-time versions for the extracted oracle (List.rev is quadratic); InputsProofs.all_outs_fast_spec *)
+Fixpoint lines_fast_aux (cur : list N) (t : list N) : list (list N) :=
+  match t with
+  | [] => match cur with [] => [] | _ => [rev_append cur []] end
+  | c :: r => if c =? 10 then rev_append cur [] :: lines_fast_aux [] r else lines_fast_aux (c :: cur) r
+  end.
+Definition data_outs_fast (f : fmt) (d : fdata) : list out :=
+  match f with
+  | FRaw => map (fun l => OVal (vstr l)) (lines_fast_aux [] (ftext d))
+  | _ => data_outs f d
+  end.
+Definition all_outs_fast (m : mode) (stdin : fdata) (args : list (fsrc fdata)) : list out :=
+  match args with
+  | [] => data_outs_fast (fmt_of m) stdin
+  | _ => flat_map (fun s => match s with FMissing => [OErr] | FData d => data_outs_fast (fmt_of m) d end) args
+  end.
